@@ -232,13 +232,50 @@ def build_component(comp, ctx):
         ctx["components"][comp["name"]] = dc
         return dc
     else:
+        kw = {}
+        if comp.get("sys_adapter"):
+            kw["adapter"] = make_system_adapter(comp["name"], ctx)
         sc = SystemComponent(
             name=comp["name"],
             components=[DuckConfig(c, ctx) for c in comp["components"]],
             expose={p: ComponentPort(s[0], s[1]) for p, s in comp.get("expose", {}).items()},
+            **kw,
         )
         ctx["components"][comp["name"]] = sc
         return sc
+
+
+def make_system_adapter(sys_name, ctx):
+    """an adapter on a SYSTEM simulation (tickit's BaseSystemSimulationAdapter): when its io is set up it reports which
+    inner components and which wiring the system component has handed it; the io serves until cancelled and keeps the
+    system's raise_interrupt so that the harness can interrupt the system itself"""
+    from tickit.adapters.system import BaseSystemSimulationAdapter
+    from tickit.core.adapter import AdapterContainer, AdapterIo
+
+    class ProbeSystemAdapter(BaseSystemSimulationAdapter):
+        pass
+
+    class ProbeSystemIo(AdapterIo):
+        async def setup(self, adapter, raise_interrupt):
+            comps = getattr(adapter, "_components", None)
+            wiring = getattr(adapter, "_wiring", None)
+            conns = None
+            if wiring is not None:
+                try:
+                    conns = sorted(f"{src.component}:{src.port}>{c}:{q}" for c, ports in wiring.items() for q, src in ports.items())
+                except Exception:   # noqa: BLE001 - a Wiring (output -> inputs) rather than an InverseWiring
+                    conns = sorted(f"{c}:{p}>{t.component}:{t.port}" for c, ports in wiring.items() for p, ts in ports.items() for t in ts)
+            ctx["trace"].log("sys-adapter-setup", comp=sys_name, components=None if comps is None else sorted(comps), conns=conns,
+                             kinds=None if comps is None else sorted(type(v).__name__ for v in comps.values()))
+            ctx["raisers"].setdefault(sys_name, raise_interrupt)
+            try:
+                await asyncio.Event().wait()
+            except asyncio.CancelledError:
+                if not ctx.get("teardown"):
+                    ctx["trace"].log("io-cancelled", comp=sys_name, adapter="system", real=ctx["loop"].now_ns() if ctx.get("loop") else None)
+                raise
+
+    return AdapterContainer(ProbeSystemAdapter(), ProbeSystemIo())
 
 
 # ---------------------------------------------------------------- ticker instrumentation
